@@ -202,7 +202,7 @@ fn run_exhaustive(ctx: &mut Ctx) {
 fn run_random(ctx: &mut Ctx) {
     let n = match ctx.profile {
         // "a few hundred histories per shard"
-        Profile::Miri => (if ctx.quick() { 60 } else { 300 }) * ctx.nshards,
+        Profile::Miri => (if ctx.quick() { 40 } else { 100 }) * ctx.nshards,
         _ => ctx.size(160_000, 1_600_000, 8),
     };
     for i in 0..n {
@@ -263,6 +263,8 @@ fn run_threads(ctx: &mut Ctx) {
 
 pub fn run(ctx: &mut Ctx) {
     let _ = ALL_OP_NAMES;
+    // the asan profile (3-4x slower) runs every 3rd case of each stream
+    ctx.asan_stride = 3;
     run_exhaustive(ctx);
     run_random(ctx);
     run_threads(ctx);
